@@ -47,6 +47,9 @@ type partial struct {
 	Notes       []string                   `json:"notes,omitempty"`
 	Extra       map[string]json.RawMessage `json:"extra,omitempty"`
 	HashCount   int                        `json:"hash_count"`
+	// EnumDistinct counts non-trivial cases of exhaustive enumerations, which are
+	// distinct by construction and therefore not hashed.
+	EnumDistinct int64 `json:"enum_distinct"`
 }
 
 // Recorder accumulates what one process explored.
@@ -120,6 +123,29 @@ func (r *Recorder) Eval(c interface{}, key interface{}, nontrivial bool, classes
 		if len(b) > r.largestSize && len(b) < 16384 {
 			r.largestSize = len(b)
 			r.p.Largest = b
+		}
+	}
+}
+
+// EvalEnum records one case of an exhaustive enumeration (distinct by construction).
+func (r *Recorder) EvalEnum(sample interface{}, nontrivial bool, classes ...string) {
+	r.mu.Lock()
+	defer r.mu.Unlock()
+	if r.failed {
+		return
+	}
+	r.p.Evaluations++
+	for _, cl := range classes {
+		r.p.Classes[cl]++
+	}
+	if !nontrivial {
+		return
+	}
+	r.p.Nontrivial++
+	r.p.EnumDistinct++
+	if sample != nil && len(r.p.Samples) < r.maxSamples {
+		if b, err := json.Marshal(sample); err == nil {
+			r.p.Samples = append(r.p.Samples, b)
 		}
 	}
 }
